@@ -17,6 +17,7 @@ open EpgVerif.Props.C14
 #print axioms normSq_convex
 #print axioms E_energy_pointwise
 #print axioms E_keeps_bound
+#print axioms E_negative_time_amplifies
 #print axioms bounded_run
 #print axioms F0_le_norm
 #print axioms signal_le_PD
